@@ -287,18 +287,56 @@ func isMajorParam(prm *ssa.Parameter) bool {
 	if b, ok := prm.Type().Underlying().(*types.Basic); !ok || b.Kind() != types.Uint8 {
 		return false
 	}
-	return paramRole(prm, 0, func(a ssa.Value) bool {
-		if c, ok := constIntVal(a); ok {
-			return c&31 == 0 && c >= 0 && c <= 0xe0
-		}
-		// the head byte's major bits
-		if bo, ok := a.(*ssa.BinOp); ok && bo.Op == token.AND {
-			if c, ok := constIntVal(bo.Y); ok && c == 0xe0 {
+	return paramRole(prm, 0, func(a ssa.Value) bool { return majorLike(a, 0) })
+}
+
+// majorLike: a constant major type, the major bits of a head byte, or a result
+// of a module function that only ever returns such values (a helper that maps
+// a signed integer to (major, argument)).
+func majorLike(a ssa.Value, depth int) bool {
+	if depth > 3 {
+		return false
+	}
+	if c, ok := constIntVal(a); ok {
+		return c&31 == 0 && c >= 0 && c <= 0xe0
+	}
+	switch x := a.(type) {
+	case *ssa.BinOp:
+		if x.Op == token.AND {
+			if c, ok := constIntVal(x.Y); ok && c == 0xe0 {
 				return true
 			}
 		}
-		return false
-	})
+	case *ssa.Phi:
+		for _, e := range x.Edges {
+			if !majorLike(e, depth+1) {
+				return false
+			}
+		}
+		return len(x.Edges) > 0
+	case *ssa.Extract:
+		c, ok := x.Tuple.(*ssa.Call)
+		if !ok {
+			return false
+		}
+		sc := c.Common().StaticCallee()
+		if sc == nil || sc.Blocks == nil {
+			return false
+		}
+		n := 0
+		for _, b := range sc.Blocks {
+			ret, ok := b.Instrs[len(b.Instrs)-1].(*ssa.Return)
+			if !ok {
+				continue
+			}
+			if x.Index >= len(ret.Results) || !majorLike(ret.Results[x.Index], depth+1) {
+				return false
+			}
+			n++
+		}
+		return n > 0
+	}
+	return false
 }
 
 // isMinorParam: a uint8 parameter that only ever receives the low five bits of
